@@ -88,6 +88,7 @@ def normLoop : List Comp → List Comp → Option (List Comp)
   | out, Comp.parent :: cs =>
     match out.reverse with
     | [] => none
+    | Comp.root :: _ => none          -- `..` may not climb above the root
     | _ :: r => normLoop r.reverse cs
   | out, c :: cs => normLoop (out ++ [c]) cs
 
